@@ -73,6 +73,9 @@ TRUSTED = [
     "is converted generically into the model's `dv` tree and the rough-distance model is compared on it",
     "use_log_scale=True (math.log) is not modelled; numpy arrays only through the scalar formula of _get_numpy_array_distance",
     "Coq's primitive floats implement IEEE binary64 as CPython's float does (PrimFloat / FloatAxioms specification axioms)",
+    "source tie `distance` (in addition to the correspondence, for the scalar kernels and _get_rough_distance only): the fail-closed "
+    "translator harness/translate/distance.py (14 listed rules, typed signatures) and the typed embedding coq/theories/Dist/DistSrcPrims.v; "
+    "the regenerated definitions are proved equal to the hand model on every run (coq/srctie/DistGenEquiv.v)",
 ]
 ASSUMPTIONS = [
     "acyclic inputs: the id()-based parents check of _get_item_length never fires (objects shared between positions are generated; "
@@ -780,7 +783,11 @@ class Recorder:
         def wrapper(self_):
             r = {"t1": self_.t1, "t2": self_.t2, "cutoff": getattr(self_, "cutoff_distance_for_pairs", None),
                  "view": getattr(self_, "view", None), "root": bool(getattr(self_, "is_root", False)), "inst": id(self_),
-                 "ignore_order": bool(getattr(self_, "ignore_order", False)), "rep": bool(getattr(self_, "report_repetition", False))}
+                 "ignore_order": bool(getattr(self_, "ignore_order", False)), "rep": bool(getattr(self_, "report_repetition", False)),
+                 # the instance stays alive as long as its record: "inst" is the key under which InstancePairs files the
+                 # pairings of THIS instance, and CPython re-uses the id of a collected nested instance for a later one
+                 # (whose pairings were then handed to the model as this run's oracle: false alarm under VERIF_SEED=1)
+                 "keep": self_}
             try:
                 r["tcs"] = [(lv.t1, lv.t2) for lv in (self_.tree.get("type_changes") or [])]
             except Exception:  # noqa
@@ -2363,9 +2370,13 @@ def on_source_tie_break(ctx, name, rec):
     report["differencing"]["_get_rough_distance"] = {"real_calls": len(uniq), "differ": len(bad),
                                                      "first": [repr((uniq[i]["t1"], uniq[i]["t2"], uniq[i]["cfg"])) for i in bad[:3]]}
     if bad:
-        TIE_STATE["scope"].add("rough")
+        # calls answered by the numeric short cut differ because the number kernels differ: those are exercised by the
+        # scalar streams; the rough stream is escalated when a call on containers differs
+        structural = [i for i in bad if not (isinstance(uniq[i]["r"]["t1"], SCALAR_TYPES) and isinstance(uniq[i]["r"]["t2"], SCALAR_TYPES))]
+        TIE_STATE["scope"].add("rough" if structural else "scalar")
+        report["differencing"]["_get_rough_distance"]["differ_on_containers"] = len(structural)
         cases, done = [], set()
-        for i in bad[:cap]:
+        for i in (structural[:cap // 2] + [j for j in bad if j not in set(structural[:cap // 2])])[:cap]:
             q = uniq[i]
             r = q["r"]
             res = r["result"]
